@@ -20,6 +20,9 @@
 (*   fold    degenerate shapes x fill x precision                          *)
 (*   input   empty / short / absurd spectrum inputs                        *)
 (*   samples contradictory sample lists for create                         *)
+(*   shapeop every tool/option on empty spectra with inner zero-length     *)
+(*           axes and absurdly long other axes                             *)
+(*   threads --threads far beyond any bound, per container                 *)
 (*   mutate  (format, field, damage) classes; the bytes are concretised    *)
 (*           with seeded randomness by the harness - TLC enumerates WHERE  *)
 (*           and HOW a file is damaged, not the bytes                      *)
@@ -61,6 +64,22 @@ FieldsOf(f) ==
       [] f = "text" -> {"prefix", "shape", "newline", "values"}
 Damages == {"bitflip", "delete", "duplicate", "huge_number", "negative", "nul", "truncate_here"}
 
+(* shapes as written in the file: lengths beyond TLC's integers are text *)
+AbsurdShapes ==
+    {"2/0/3", "0/3", "3/0", "0/0", "0/0/0", "1/0/1", "0/1", "0/2/2/2", "3/3/0", "2/3/0/2",
+     "0/18446744073709551615/18446744073709551615", "18446744073709551615/0", "0/18446744073709551615",
+     "18446744073709551615/0/18446744073709551615"}
+    \* (only lengths at which any non-empty result cannot even be addressed: an axis of 2^32 next to a zero axis would
+    \*  legitimately ask for gigabytes of zeros, which is resource use, not a defect)
+ShapeOps ==
+    {<<"view">>, <<"view", "-m", "0">>, <<"view", "-m", "1">>, <<"view", "-m", "2">>, <<"view", "-m", "0,1">>, <<"view", "-m", "1,2">>,
+     <<"view", "-M", "0">>, <<"view", "-M", "1">>, <<"view", "-M", "2">>, <<"view", "-p", "1,1,1">>, <<"view", "-p", "0,0,0">>,
+     <<"view", "-p", "1,1">>, <<"view", "--project-shape", "1,1">>, <<"view", "--project-shape", "1,1,1">>, <<"view", "-n">>,
+     <<"view", "--mask-monomorphic">>, <<"view", "-O", "npy">>, <<"view", "-m", "0", "-n", "--mask-monomorphic">>,
+     <<"fold">>, <<"fold", "-s", "0">>}
+    \cup {<<"stat", "-s", st>> : st \in {"sum", "s", "pi", "theta", "d-tajima", "d-fu-li", "pi-xy", "f2", "fst", "king", "r0", "r1", "f3", "f4"}}
+ThreadCounts == {"1", "16", "64", "257", "1000", "20000", "100000", "4294967296", "9223372036854775807", "18446744073709551615"}
+
 Scenarios ==
     [kind : {"stat"}, stat : StatNames, shape : StatShapes]
     \cup [kind : {"view"}, o : ViewOpts, shape : ViewShapes]
@@ -77,6 +96,12 @@ Scenarios ==
            shape : {[i \in 1..21 |-> IF i = 1 THEN 10 ELSE 1], [i \in 1..20 |-> IF i = 1 THEN 0 ELSE IF i <= 5 THEN 10 ELSE 1],
                     [i \in 1..22000 |-> 1]}]
     \cup [kind : {"view"}, o : [opt : {"project-individuals"}, val : {"9223372036854775807", "9223372036854775808", "4611686018427387904"}], shape : {<<3>>}]
+    \* two-axis shapes with the element count of the one admissible shape (9 = 3 x 3) and neighbours, for king / r0 / r1
+    \cup [kind : {"stat"}, stat : {"king", "r0", "r1", "f2", "fst", "pi_xy"}, shape : {<<1, 9>>, <<9, 1>>, <<3, 3>>, <<9>>, <<3, 3, 1>>, <<1, 3, 3>>, <<3, 4>>, <<4, 3>>}]
+    \* empty spectra whose zero-length axis is not the last one, next to absurdly long axes: every tool and option on them
+    \cup [kind : {"shapeop"}, shape : AbsurdShapes, format : {"text", "npy"}, op : ShapeOps]
+    \* --threads at and beyond any sensible bound, on every container
+    \cup [kind : {"threads"}, t : ThreadCounts, container : {"vcf", "vcf.gz", "bcf", "rawbcf"}]
 
 WellFormed(s) == s.kind = "mutate" => s.field \in FieldsOf(s.format)
 
@@ -95,6 +120,7 @@ StatDomain(stat, sh) ==
 
 Expect(s) ==
     CASE s.kind = "stat" -> StatDomain(s.stat, s.shape)
+      [] s.kind = "threads" -> "ok"            \* any --threads value behaves like any other (C12)
       [] OTHER -> "ok_or_err"
 
 (* the panics present in the code as found (documentation of the as-built behaviour) *)
@@ -106,6 +132,9 @@ AsBuiltPanics(s) ==
     \/ s.kind = "view" /\ s.o.opt = "precision" /\ s.o.val \in {"65536", "70000"}
     \/ s.kind = "samples" /\ s.list \in {"dup_diff_label", "dup_unnamed_named"}
     \/ s.kind = "input" /\ s.input \in {"empty", "1byte", "5bytes", "text_shape_overflow", "npy_shape_overflow"}
+    \/ s.kind = "shapeop" /\ s.shape = "2/0/3" /\ s.op = <<"view", "-m", "2">>
+    \/ s.kind = "shapeop" /\ s.shape = "0/18446744073709551615/18446744073709551615" /\ s.op \in {<<"fold">>, <<"view", "-m", "0">>}
+    \/ s.kind = "threads" /\ s.t \in {"20000", "100000", "4294967296", "9223372036854775807", "18446744073709551615"} /\ s.container \in {"vcf.gz", "bcf"}
 
 (******************************** machine ********************************)
 Init == /\ sc \in {s \in Scenarios : WellFormed(s)} /\ phase = "start" /\ outcome = Running
